@@ -1,6 +1,6 @@
 #!/usr/bin/env python3
 import os, re, shutil, subprocess, sys
-BASE='/var/tmp/ag-c03/repo'; MUT='/var/tmp/ag-c03/mut'; V='/var/tmp/ag-c03/verif'
+BASE=os.environ.get('MUT_BASE','/var/tmp/ag-c03/repo'); MUT='/var/tmp/ag-c03/mut'; V='/var/tmp/ag-c03/verif'
 def sub(path, old, new, count=1):
     p=os.path.join(MUT,'src/cocls',path); s=open(p).read()
     assert old in s, (path, old)
@@ -13,14 +13,12 @@ MUTS = {
  'M5_busy_store_relaxed': lambda: sub('coro_storage.h','me->_busy.store(false, std::memory_order_release);','me->_busy.store(false, std::memory_order_relaxed);'),
  'M6_unlock_cas_relaxed': lambda: sub('mutex.h','compare_exchange_strong(x, nullptr, std::memory_order_release)','compare_exchange_strong(x, nullptr, std::memory_order_relaxed)'),
  'M7_bq_xchg_relaxed': lambda: sub('mutex.h','_requests.exchange(doorman(), std::memory_order_acquire)','_requests.exchange(doorman(), std::memory_order_relaxed)'),
- 'M8_queue_push_outside_lock': lambda: sub('queue.h','''            lk.unlock();
-            return p(std::forward<Args>(args)...);
-        } else {
-            _queue.emplace(std::forward<Args>(args)...);''','''            lk.unlock();
-            return p(std::forward<Args>(args)...);
-        } else {
+ 'M8_queue_push_outside_lock': lambda: sub('queue.h',"""        } else {
+            _queue.emplace(std::forward<Args>(args)...);
+            return false;""","""        } else {
             lk.unlock();
-            _queue.emplace(std::forward<Args>(args)...);'''),
+            _queue.emplace(std::forward<Args>(args)...);
+            return false;"""),
  'M9_sched_access_outside_guard': lambda: sub('scheduler.h','''    promise remove(ident id) {
         std::lock_guard _(_mx);
         if (_scheduled.empty()) return {};''','''    promise remove(ident id) {
@@ -37,6 +35,23 @@ MUTS = {
         COCLS_VERIF_POINT("ready");'''),
  'M16_publisher_position_unlocked': lambda: sub('publisher.h','''            std::lock_guard _(_mx);
             return _regs[h]._pos;''','''            return _regs[h]._pos;'''),
+ 'M17_mutex_ready_peeks_queue': lambda: sub('mutex.h','''    bool ready() {
+''','''    bool ready() {
+        if (_queue != nullptr) return false;
+'''),
+ 'M18_mtsafe_busy_path_reads_capacity': lambda: sub('coro_storage.h','            owner = nullptr;\n','            owner = nullptr;\n            if (_capacity == 12345) owner = nullptr;\n'),
+ 'M19_subcr_touch_after_publish': lambda: sub('awaiter.h',"""            COCLS_VERIF_POINT("sub_retry");
+        }
+        return true;""","""            COCLS_VERIF_POINT("sub_retry");
+        }
+        return _handle_addr != nullptr || true;"""),
+ 'M20_generator_reads_result_before_wait': lambda: sub('generator.h','''            h.resume();
+            //block thread if the generator still running
+''','''            h.resume();
+            if (_done) return;
+            //block thread if the generator still running
+'''),
+ 'M21_future_ready_reads_state': lambda: sub('future.h','return _awaiter.load(std::memory_order_acquire) == &awaiter::disabled;','return _state != State::not_value || _awaiter.load(std::memory_order_acquire) == &awaiter::disabled;'),
  # must stay silent
  'S1_ready_seq_cst': lambda: sub('future.h','return _awaiter.load(std::memory_order_acquire) == &awaiter::disabled;','return _awaiter.load(std::memory_order_seq_cst) == &awaiter::disabled;'),
  'S2_rename_local': lambda: (sub('mutex.h','awaiter *req = _requests.exchange(doorman(), std::memory_order_acquire);','awaiter *taken = _requests.exchange(doorman(), std::memory_order_acquire);\n        awaiter *req = taken;'),),
@@ -49,14 +64,18 @@ MUTS = {
                 _next = nullptr;'''),
  'S4_explicit_failure_order': lambda: sub('awaiter.h','while (!chain.compare_exchange_weak(_next, this, std::memory_order_release)) {','while (!chain.compare_exchange_weak(_next, this, std::memory_order_release, std::memory_order_relaxed)) {'),
  'S5_all_seq_cst_mutex': lambda: (sub('mutex.h','compare_exchange_strong(x, nullptr, std::memory_order_release)','compare_exchange_strong(x, nullptr)'), sub('mutex.h','_requests.exchange(doorman(), std::memory_order_acquire)','_requests.exchange(doorman())')),
- 'S6_queue_lock_guard_to_unique': lambda: sub('queue.h','''    bool empty() {
-        std::lock_guard _(_mx);''','''    bool empty() {
-        std::unique_lock guard(_mx);'''),
+ 'S6_queue_lock_guard_to_unique': lambda: sub('queue.h',"""        std::lock_guard _(_mx);
+        return _queue.empty();""","""        std::unique_lock guard(_mx);
+        return _queue.empty();"""),
+ 'S8_unlock_reads_queue_again_as_owner': lambda: sub('mutex.h','        awaiter *first = _queue;\n','        awaiter *first = _queue;\n        if (_queue == nullptr) return;\n'),
  'S7_cas_fail_acquire_no_fence': lambda: (sub('awaiter.h','while (!chain.compare_exchange_weak(_next, this, std::memory_order_release)) {','while (!chain.compare_exchange_weak(_next, this, std::memory_order_release, std::memory_order_acquire)) {'), sub('awaiter.h','                std::atomic_thread_fence(std::memory_order_acquire);\n','')),
 }
 def run(name):
     shutil.rmtree(MUT, ignore_errors=True); shutil.copytree(BASE, MUT)
-    MUTS[name]()
+    try:
+        MUTS[name]()
+    except AssertionError as e:
+        print('== %s PATTERN-NOT-FOUND %r' % (name, e)); return
     env=dict(os.environ, COCLS_REPO=MUT)
     p=subprocess.run(['./check','C03','--tier','quick'],cwd=V,env=env,stdout=subprocess.PIPE,stderr=subprocess.STDOUT)
     out=p.stdout.decode()
